@@ -69,6 +69,13 @@ type Item struct {
 	NoPanic  bool // only the panic obligations (and loops) — "sweep"
 	Opts     map[string]string
 	Triggers [][]*SExpr
+	Emits    []*Emit
+}
+
+// Emit: a call of the function appends a record to a ghost trace channel.
+type Emit struct {
+	Ch   string
+	Args []*SExpr
 }
 
 // UseAt instantiates a lemma at a program point.
@@ -78,10 +85,10 @@ type UseAt struct {
 	Args  []*SExpr
 }
 
-var itemKW = map[string]bool{"func": true, "pure": true, "pred": true, "lemma": true, "interface": true, "axiom": true}
+var itemKW = map[string]bool{"func": true, "pure": true, "pred": true, "lemma": true, "interface": true, "axiom": true, "census": true, "preserveset": true}
 var clauseKW = map[string]bool{"requires": true, "ensures": true, "modifies": true, "loop": true, "decreases": true,
 	"mode": true, "inline": true, "uses": true, "use": true, "property": true, "trusted": true, "cases": true, "proof": true,
-	"nopanic": true, "opt": true, "trigger": true}
+	"nopanic": true, "opt": true, "trigger": true, "emits": true, "preserves": true, "ghost": true}
 
 // parseContractFile reads the //@ lines of one file into items.
 func parseContractFile(path, pkgPath string) ([]*Item, error) {
@@ -180,6 +187,26 @@ func parseContractFile(path, pkgPath string) ([]*Item, error) {
 						it.Property = f[i+1]
 					}
 				}
+			case "preserveset":
+				// preserveset <name> = T1, T2, ...
+				f := strings.SplitN(rest, "=", 2)
+				if len(f) != 2 {
+					return nil, fail(fmt.Errorf("expected: preserveset <name> = types"))
+				}
+				it.Name = strings.TrimSpace(f[0])
+				it.Opts["list"] = strings.TrimSpace(f[1])
+			case "census":
+				// census <Cxx[,Cyy]> calls|writes <target> within <f1>, <f2>, ...
+				f := strings.Fields(rest)
+				k := strings.Index(rest, " within ")
+				if len(f) < 4 || k < 0 || (f[1] != "calls" && f[1] != "writes") {
+					return nil, fail(fmt.Errorf("expected: census <prop> calls|writes <target> within <functions>"))
+				}
+				it.Property = f[0]
+				it.Opts["census-kind"] = f[1]
+				it.Opts["census-target"] = f[2]
+				it.Opts["census-within"] = strings.TrimSpace(rest[k+8:])
+				it.Name = "census:" + f[1] + ":" + f[2]
 			case "axiom":
 				f := strings.SplitN(rest, " ", 2)
 				it.Name = f[0]
@@ -275,6 +302,24 @@ func parseContractFile(path, pkgPath string) ([]*Item, error) {
 				return nil, fail(fmt.Errorf("use needs a lemma call: %v", err))
 			}
 			cur.UseAt = append(cur.UseAt, &UseAt{Where: strings.Join(strings.Fields(rest[:k]), " "), Name: x.Name, Args: x.Args})
+		case "ghost":
+			// ghost ensures e : assumed at call sites, not checked in the callee. Only for facts
+			// that merely NAME an outcome through an otherwise unconstrained spec predicate.
+			r := strings.TrimSpace(strings.TrimPrefix(rest, "ensures"))
+			x, err := parseSpecExpr(r)
+			if err != nil {
+				return nil, fail(err)
+			}
+			cur.Clauses = append(cur.Clauses, &Clause{Kind: "ghostensures", Expr: x, Text: r})
+		case "preserves":
+			// unknown code behind this contract may change anything except the fields of the listed struct types
+			cur.Opts["preserves"] = rest
+		case "emits":
+			x, err := parseSpecExpr(rest)
+			if err != nil || x.Op != "call" {
+				return nil, fail(fmt.Errorf("emits needs channel(args): %v", err))
+			}
+			cur.Emits = append(cur.Emits, &Emit{Ch: x.Name, Args: x.Args})
 		case "property":
 			cur.Property = strings.TrimSpace(rest)
 		case "trusted":
